@@ -59,6 +59,16 @@ def observe(runner, locs):
     for l in locs:
         r = runner.mkref(l["path"])
         out["queries"][str(r)] = (sorted(map(str, r._find_dependant_targets())), sorted(map(str, r._tasks)), str(r._expr))
+    # the label -> container registry, and a query that walks it: the setter generated for the first leaf location
+    out["containers"] = sorted((str(k), type(v).__name__, id(v)) for k, v in m.containers.items())
+    leaf = next((l for l in locs if l["group"] == "leaf"), None)
+    if leaf is not None:
+        try:
+            m.gen_fun("probe", x=runner.mkref(leaf["path"]))
+            # (any valid order of independent tasks is fine: the SET of statements is the answer compared)
+            out["queries"]["gen_fun(probe)"] = ("ok", sorted(m.mk_fun("probe", x=runner.mkref(leaf["path"])).split("\n")))
+        except Exception as exc:
+            out["queries"]["gen_fun(probe)"] = ("raised", type(exc).__name__)
     return out
 
 
@@ -71,6 +81,8 @@ def diff_obs(a, b):
             keys = [k for k in set(a["supports"][n]) | set(b["supports"][n]) if a["supports"][n].get(k) != b["supports"][n].get(k)]
             return "index %s changed at %s: %s -> %s" % (n, keys[:2], [a["supports"][n].get(k) for k in keys[:2]],
                                                          [b["supports"][n].get(k) for k in keys[:2]])
+    if a["containers"] != b["containers"]:
+        return "the label -> container registry changed: %s -> %s" % ([x[:2] for x in a["containers"]], [x[:2] for x in b["containers"]])
     for q in a["queries"]:
         if a["queries"][q] != b["queries"].get(q):
             return "query answers for %s changed: %s -> %s" % (q, a["queries"][q], b["queries"].get(q))
